@@ -174,6 +174,9 @@ class RepoPolicy(Policy):
         if isinstance(e, ast.Lambda):
             fi = self.repo.func_of_node(e)
             return [('func', fi, frame)] if fi is not None else [('other', e)]
+        if isinstance(e, ast.Attribute) and e.attr == '__get__':
+            # the getter of a (user supplied) property object: calling it runs the user's function
+            return self.static_values(e.value, frame, depth + 1)
         if isinstance(e, ast.Attribute) and isinstance(e.value, ast.Name):
             owner, kind = self.owner_of(e.value.id, frame.func)
             if self.is_self(e.value.id, frame.func):
@@ -221,8 +224,9 @@ class RepoPolicy(Policy):
         if assigns and fr is not None or assigns and owner is not frame.func:
             out = []
             for a in assigns:
-                out.extend(self.static_values(a.value, fr if fr is not None else frame, depth + 1)
-                           if fr is not None else [('other', a.value)])
+                # an enclosing function that is not itself a frame (the decorator factory around the analysed closure): its
+                # names are resolved lexically from the current frame
+                out.extend(self.static_values(a.value, fr if fr is not None else frame, depth + 1))
             return out
         return [('other', e)]
 
